@@ -4,6 +4,7 @@ import (
 	"math"
 	"sort"
 	"testing"
+	. "verifharness/hist"
 
 	"github.com/google/reftable"
 	"pgregory.net/rapid"
